@@ -480,8 +480,14 @@ func (o *ObjectSchema) applySubObjectDefaultValuesRecursive(
 	visiting[subObject] = struct{}{}
 	defer delete(visiting, subObject)
 	data := map[string]any{}
-	if _, ok := rawData[propertyID]; ok {
-		data = rawData[propertyID].(map[string]any)
+	if existing, ok := rawData[propertyID]; ok {
+		existingMap, isMap := existing.(map[string]any)
+		if !isMap {
+			// Not a map, for example the single-property shorthand as declared default: there is nothing to
+			// merge into, the member's own Unserialize decides what to make of the value.
+			return
+		}
+		data = existingMap
 	}
 	subObjectDefaults := subObject.GetDefaults()
 	for k, v := range subObjectDefaults {
